@@ -1,11 +1,13 @@
 """C20 - currency cache: atomic refresh, fail-safe start, stale fallback, success visible.
 
 Legs (DESIGN.md section 4, C20):
-  D  design: TLC on Cache.tla (temp file + rename protocol shaped like cli/src/config.rs), every
+  D  design: TLC on Cache.tla (temp file + validate + rename protocol shaped like cli/src/config.rs), every
      (prior cache, server behaviour, entry point), Crash in every state, a following start with the
-     server down; invariants Atomic / FailKeeps / ChangeOnlyOnSuccess / SuccessVisible / StartsAnyway /
-     FallsBack.  The protocols the code must not implement (write in place, rename before the status
-     check, truncated transfer taken as success, no fallback, abort on error) must each violate them.
+     server down, then a run against a healthy server; invariants Atomic / FailKeeps / ChangeOnlyOnSuccess /
+     SuccessVisible / SuccessIsComplete / Recovers / StartsAnyway / FallsBack.  The protocols the code must
+     not implement (write in place, rename before the status check, truncated transfer taken as success,
+     no validation of a close-delimited body, fixed temp file name, no fallback, abort on error) must each
+     violate them.
   G  fault enumeration: for every combination TLC prints, the real `rink` binary (built from /repo's
      working tree into /verif/target-cli) runs against the fault-injecting server rv-httpd with scratch
      XDG directories; bytes of rink/currency.json before/after, exit status, reply to `1+1` and to a
@@ -13,6 +15,10 @@ Legs (DESIGN.md section 4, C20):
   K  kill -9 sweep: the run is traced once (strace), then repeated once per file-system call that touched
      the cache directory with `strace -e inject=<call>:signal=KILL:when=N` (kill on syscall entry).
   V  every strace log (paths classified cache / temp / other) is validated by Trace_Cache.tla.
+  R  recovery: after every run of G / K / T and its next start, one more run against a healthy server with
+     the cache aged past cache_duration must install the new contents (nothing a failed or killed refresh
+     left in the cache directory may decide a later refresh).
+  T  tiny unreadable prior caches (0, 1, 2, 3 bytes; not UTF-8; an empty document) at both entry points.
 """
 import concurrent.futures
 import http.client
@@ -41,19 +47,58 @@ TRACESET = ",".join("?" + s for s in (
     "open openat creat write pwrite64 writev pwritev sendfile copy_file_range truncate ftruncate "
     "fsync fdatasync rename renameat renameat2 link linkat unlink unlinkat dup dup2 dup3 fcntl").split())
 ERR_BODY = '{"error": "rv-httpd answers with status %d"}\n'
-FAILING = ("cut", "stall", "status", "refused")
+FAILING = ("cut", "cutclose", "stall", "status", "refused")
+SUCCEEDS = ("ok", "okclose")     # the server behaviours that deliver the complete new body (Cache.tla: Succeeds)
+# the shortest previous caches (hex): empty, one byte, one byte that is not UTF-8, an empty document, a lone byte
+# order mark, three bytes of an unterminated document
+TINY = ("", "5b", "ff", "5b5d", "efbbbf", "5b7b22")
 
 
 # ----------------------------------------------------------------------------
 # building and the fault server
 
+def _patched_core_root():
+    """bin/mut_iso.py with a patch that does not touch cli/ leaves vlib.REPO at /repo and only points the copied harness
+    at a patched copy of core/ and sandbox/.  The rink binary has to be built from that very core, otherwise a change
+    seeded in rink-core never reaches the program under test.  -> root of the patched copy, or None."""
+    try:
+        toml = open(os.path.join(vlib.HARNESS, "Cargo.toml")).read()
+    except OSError:
+        return None
+    m = re.search(r'rink-core\s*=\s*\{\s*path\s*=\s*"([^"]+)/core"', toml)
+    if not m:
+        return None
+    root = os.path.realpath(m.group(1))
+    # only ever a scratch copy under /verif/work (members are copied INTO it): never /repo or anybody's checkout
+    if root != os.path.realpath(vlib.REPO) and root.startswith(os.path.realpath(vlib.WORK) + os.sep) and \
+            os.path.isdir(os.path.join(root, "core")):
+        return root
+    return None
+
+
 def build_cli():
+    """cargo build of the rink binary; sets RINK.  Normally from vlib.REPO into CLI_TARGET; under bin/mut_iso.py with a
+    core-only patch from a private workspace: the patched core/ and sandbox/ plus copies of the other members."""
+    global RINK
     t0 = time.time()
-    p = subprocess.run(["cargo", "build", "-p", "rink", "--offline", "--target-dir", CLI_TARGET],
-                       cwd=vlib.REPO, env=vlib.child_env(), stdout=subprocess.PIPE, stderr=subprocess.STDOUT, text=True)
+    src, target = vlib.REPO, CLI_TARGET
+    root = _patched_core_root()
+    if root:
+        for sub in ("cli", "irc", "rink-js", "web", "docs"):
+            shutil.rmtree(os.path.join(root, sub), ignore_errors=True)
+            if os.path.isdir(os.path.join(vlib.REPO, sub)):
+                shutil.copytree(os.path.join(vlib.REPO, sub), os.path.join(root, sub),
+                                ignore=shutil.ignore_patterns("target", "node_modules"), copy_function=shutil.copy, symlinks=True)
+        for f in ("Cargo.toml", "Cargo.lock"):
+            shutil.copy(os.path.join(vlib.REPO, f), os.path.join(root, f))
+        src, target = root, os.path.join(os.path.dirname(os.path.abspath(root)), "target-cli")
+        log("[build] rink cli is built from the patched core in %s" % root)
+    RINK = os.path.join(target, "debug", "rink")
+    p = subprocess.run(["cargo", "build", "-p", "rink", "--offline", "--target-dir", target],
+                       cwd=src, env=vlib.child_env(), stdout=subprocess.PIPE, stderr=subprocess.STDOUT, text=True)
     if p.returncode != 0 or not os.path.exists(RINK):
         log(p.stdout[-6000:])
-        raise vlib.ToolError("cargo build -p rink (into /verif/target-cli) failed")
+        raise vlib.ToolError("cargo build -p rink (into %s) failed" % target)
     log("[build] rink cli built in %.1fs" % (time.time() - t0))
 
 
@@ -87,6 +132,7 @@ class Ctx:
         self.deadport = self.dead.getsockname()[1]
         self.errlen = len(ERR_BODY % 404)
         self._n = itertools.count(1)
+        self.control = None      # set by run(): {entry: a healthy refresh from an untouched cache directory succeeded}
 
     def close(self):
         try:
@@ -99,6 +145,19 @@ class Ctx:
 
     def piece(self):
         return (len(self.new) + self.pieces - 1) // self.pieces
+
+    def complete_deliveries(self):
+        """how many times the server sent the complete body with status 200 (its own log: `<path> <body bytes sent>`)"""
+        n = 0
+        try:
+            for ln in open(self.reqlog, errors="replace"):
+                f = ln.split()
+                if len(f) == 2 and f[0].split("/")[1:2] in (["ok"], ["okclose"]) and f[0].endswith("/currency.json") \
+                        and f[1] == str(len(self.new)):
+                    n += 1
+        except FileNotFoundError:
+            pass
+        return n
 
     def cut_bytes(self, server):
         """model position (chunks) -> bytes; an explicit byte position wins (thorough extras)"""
@@ -115,6 +174,10 @@ class Ctx:
             return "%s/ok/%d/currency.json" % (base, self.pieces)
         if m == "cut":
             return "%s/cut/%d/%d/currency.json" % (base, self.cut_bytes(server), self.pieces)
+        if m == "okclose":
+            return "%s/okclose/%d/currency.json" % (base, self.pieces)
+        if m == "cutclose":
+            return "%s/cutclose/%d/%d/currency.json" % (base, self.cut_bytes(server), self.pieces)
         if m == "stall":
             if server["k"] < 0:
                 return "%s/stall/none/currency.json" % base
@@ -127,11 +190,14 @@ class Ctx:
 
     def selftest(self):
         """the fault server does what its modes are called (otherwise every verdict would be void)"""
-        def get(path):
-            c = http.client.HTTPConnection("127.0.0.1", self.port, timeout=1.5)
+        framing = {}
+
+        def get(path, limit=10):
+            c = http.client.HTTPConnection("127.0.0.1", self.port, timeout=limit)
             try:
                 c.request("GET", path)
                 r = c.getresponse()
+                framing[path] = (r.getheader("Content-Length"), r.getheader("Transfer-Encoding"))
                 try:
                     body = r.read()
                     short = False
@@ -140,19 +206,27 @@ class Ctx:
                 return r.status, body, short
             finally:
                 c.close()
-        st, body, short = get("/ok/3/currency.json")
+        st, body, short = get("/ok/3/selftest.json")
         if (st, body, short) != (200, self.new, False):
             raise vlib.ToolError("rv-httpd self-test: /ok does not deliver the body")
         k = self.piece()
-        st, body, short = get("/cut/%d/3/currency.json" % k)
+        st, body, short = get("/cut/%d/3/selftest.json" % k)
         if st != 200 or body != self.new[:k] or not short:
             raise vlib.ToolError("rv-httpd self-test: /cut does not cut after %d bytes" % k)
+        # close-delimited: no Content-Length, no chunks, the body ends with an orderly close - complete or cut,
+        # the client sees no framing error
+        for path, want in (("/okclose/3/selftest.json", self.new), ("/cutclose/%d/3/selftest.json" % k, self.new[:k]),
+                           ("/cutclose/0/3/selftest.json", b"")):
+            st, body, short = get(path)
+            if (st, body, short) != (200, want, False) or framing[path] != (None, None):
+                raise vlib.ToolError("rv-httpd self-test: %s does not deliver %d bytes delimited by the close (framing %s)"
+                                     % (path, len(want), framing[path]))
         for code in (301, 404, 500):
-            st, body, short = get("/status/%d/currency.json" % code)
+            st, body, short = get("/status/%d/selftest.json" % code)
             if st != code or len(body) != self.errlen or short:
                 raise vlib.ToolError("rv-httpd self-test: /status/%d answered %s with %d bytes" % (code, st, len(body)))
         try:
-            get("/stall/none/currency.json")
+            get("/stall/none/selftest.json", 1.5)
             raise vlib.ToolError("rv-httpd self-test: /stall answered")
         except (socket.timeout, TimeoutError):
             pass
@@ -190,13 +264,15 @@ class Scratch:
                 del env[k]
         return env
 
-    def set_prior(self, prior):
+    def set_prior(self, prior, prior_hex=None):
         now = time.time()
         if prior == "absent":
             self.prior_bytes = None
             return
         os.makedirs(self.cachedir, exist_ok=True)
         data = self.ctx.garbage if prior.startswith("garbage") else self.ctx.old
+        if prior_hex is not None:
+            data = bytes.fromhex(prior_hex)
         with open(self.cachefile, "wb") as f:
             f.write(data)
         t = now if prior in ("fresh", "garbage_fresh") else now - self.stale_age()
@@ -238,6 +314,12 @@ class Scratch:
         if os.path.exists(self.cachefile):
             t = time.time() - self.stale_age()
             os.utime(self.cachefile, (t, t))
+
+    def read_cache(self):
+        try:
+            return open(self.cachefile, "rb").read()
+        except FileNotFoundError:
+            return None
 
     def run(self, args, tracefile=None, inject=None):
         cmd = [RINK] + args
@@ -293,15 +375,17 @@ def server_key(s):
 
 def case_key(case):
     return (case["prior"], case["entry"]) + server_key(case["server"]) + \
-           ((case["kill"]["syscall"], case["kill"]["when"]) if case.get("kill") else ())
+           ((case["kill"]["syscall"], case["kill"]["when"]) if case.get("kill") else ()) + \
+           (("tiny", case["prior_hex"]) if case.get("prior_hex") is not None else ())
 
 
-def execute(ctx, case, ageds, keep_trace=True):
+def execute(ctx, case, ageds, keep_trace=True, recover=True):
     """Run one case: prior cache -> run under test (traced, optionally with an injected kill) ->
-    next start(s) with the server down.  Returns the observation."""
+    next start(s) with the server down -> a run against a healthy server (same entry point, cache aged).
+    Returns the observation."""
     sc = Scratch(ctx, "case")
     try:
-        sc.set_prior(case["prior"])
+        sc.set_prior(case["prior"], case.get("prior_hex"))
         sc.configure(ctx.url(case["server"]), timeout_ms(case["server"]))
         trace = os.path.join(sc.dir, "strace.txt")
         args = ["--fetch-currency"] if case["entry"] == "fetch" else list(QUERIES)
@@ -326,6 +410,16 @@ def execute(ctx, case, ageds, keep_trace=True):
             cls, ln = sc.cache_state()
             rn.update({"aged": aged, "after": cls, "after_len": ln})
             obs["next"].append(rn)
+        if recover:
+            # later: the server is in good health and the cache (whatever it holds) is past cache_duration
+            sc.configure(ctx.url({"mode": "ok", "k": ctx.pieces, "code": 200}), 20000)
+            sc.age_cache()
+            before = sc.litter()
+            rr = sc.run(["--fetch-currency"] if case["entry"] == "fetch" else list(QUERIES))
+            data = sc.read_cache()
+            rr.update({"cache_is_new": data == ctx.new, "cache_len": None if data is None else len(data),
+                       "litter_before": before, "litter_after": sc.litter()})
+            obs["recovery"] = rr
         return obs
     finally:
         sc.remove()
@@ -466,12 +560,12 @@ def parse_strace(text, sc):
 def meta_event(ctx, case):
     s = case["server"]
     m = s["mode"]
-    k = {"ok": len(ctx.new), "status": ctx.errlen, "refused": 0}.get(m)
+    k = {"ok": len(ctx.new), "okclose": len(ctx.new), "status": ctx.errlen, "refused": 0}.get(m)
     if k is None:
         k = ctx.cut_bytes(s)
     return {"ev": "meta", "path_class": "other", "src": "none", "flags": [], "n": 0, "ok": True,
             "prior": case["prior"], "entry": case["entry"], "mode": m, "k": k,
-            "code": 200 if m in ("ok", "cut", "stall") else s["code"],
+            "code": 200 if m in ("ok", "cut", "stall", "okclose", "cutclose") else s["code"],
             "newlen": len(ctx.new), "errlen": ctx.errlen,
             "kill": ("%s#%d" % (case["kill"]["syscall"], case["kill"]["when"])) if case.get("kill") else "none"}
 
@@ -479,20 +573,23 @@ def meta_event(ctx, case):
 # ----------------------------------------------------------------------------
 # judging an observation against what the property admits
 
-def judge(case, expect, obs):
-    """-> (violations, drifts); a violation is (kind, spec_allows, observed)."""
+def judge(case, expect, obs, control=None):
+    """-> (violations, drifts); a violation is (kind, spec_allows, observed).
+    control: {entry: a refresh against the healthy server from an untouched cache directory succeeded in this check
+    run}; the recovery verdict is differential (see below)."""
     v, d = [], []
     r1 = obs["run1"]
     prior, entry, mode = case["prior"], case["entry"], case["server"]["mode"]
-    allowed = ["prior", "new"] if mode == "ok" else ["prior"]
+    allowed = ["prior", "new"] if mode in SUCCEEDS else ["prior"]
     killed = bool(case.get("kill")) and r1.get("killed")
     if r1["hung"]:
         v.append(("hang", "the run ends (limit %ds)" % RUN_LIMIT, {"run1": r1}))
     # Atomic / FailKeeps: bytes of the cache file
     if obs["after"] not in allowed:
         v.append(("cache-file", {"cache_after": allowed,
-                                 "why": "complete previous or complete new contents; unchanged when the server never "
-                                        "delivered a complete 200 answer"},
+                                 "why": "complete previous or complete new contents (byte for byte); unchanged when the "
+                                        "server never delivered the complete body with status 200, however the answer "
+                                        "was framed"},
                   {"cache_after": obs["after"], "length": obs["after_len"], "killed": killed}))
     if not killed and not r1["hung"]:
         if entry == "startup":
@@ -531,6 +628,31 @@ def judge(case, expect, obs):
             v.append(("success-not-visible", "the next start answers with the new rate %s" % NEW_RATE, o))
         if obs["after"] == "prior" and prior in ("fresh", "stale") and rn["rate"] != "old":
             v.append(("next-start-fallback", "the next start answers from the previous cache (rate %s)" % OLD_RATE, o))
+    # later, against a healthy server: the refresh goes through, whatever the earlier runs left behind
+    rr = obs.get("recovery")
+    if rr is not None:
+        o = {"entry": entry, "rc": rr["rc"], "cache_is_new": rr["cache_is_new"], "cache_length": rr["cache_len"],
+             "temp_files_before": rr["litter_before"], "stdout": rr["stdout_tail"], "stderr": rr["stderr_tail"],
+             "run_under_test_was_killed": killed, "cache_after_run1": obs["after"]}
+        if rr["hung"]:
+            v.append(("recovery-hang", "a run against a healthy server ends (limit %ds)" % RUN_LIMIT, o))
+        elif not rr["cache_is_new"] and control is not None and not control.get(entry):
+            # the property is conditional on success: code that cannot refresh even from an untouched cache directory is
+            # not this family's business (run() raises a tool error when no refresh ever succeeds)
+            d.append("the refresh against the healthy server did not install the new contents - nor did it from an "
+                     "untouched cache directory")
+        elif not rr["cache_is_new"]:
+            # differential: the same refresh (same server, same entry point) succeeds from an untouched cache directory
+            # in this very check run; here it fails only because of what the earlier run left behind.  "Either the
+            # previous or the new contents" = a failed refresh counts as not attempted: its effect ends with it
+            v.append(("recovery", "a failed or killed refresh leaves the cache as if it had not been attempted: a later "
+                                  "refresh against a healthy server (complete 200 answer, cache older than cache_duration) "
+                                  "installs the complete new contents exactly as it does from an untouched cache directory", o))
+        elif rr["rc"] != 0 or (entry == "startup" and not rr["sum_ok"]):
+            v.append(("recovery-start", "the run that refreshed successfully ends with status 0" +
+                      (" and answers 1+1" if entry == "startup" else ""), o))
+        elif entry == "startup" and rr["rate"] != "new":
+            d.append("start after a successful refresh (recovery run) answered %r, not the new rate" % rr["rate_reply"])
     return v, d
 
 
@@ -626,12 +748,13 @@ def corrupted_selfcheck(run, ctx, good):
 # TLC
 
 VARIANTS = [("v_inplace", "Atomic"), ("v_inplace2", "FailKeeps"), ("v_persist1", "Atomic"), ("v_persist2", "FailKeeps"),
-            ("v_trunc", "Atomic"), ("v_nofall", "FallsBack"), ("v_abort", "StartsAnyway")]
+            ("v_trunc", "Atomic"), ("v_noval", "Atomic"), ("v_noval2", "SuccessIsComplete"), ("v_fixedtmp", "Recovers"),
+            ("v_nofall", "FallsBack"), ("v_abort", "StartsAnyway")]
 
 
 def design_runs(run, thorough):
     full, gen = ("MC_Cache_full5", "MC_Cache_gen5") if thorough else ("MC_Cache_full", "MC_Cache_gen")
-    with concurrent.futures.ThreadPoolExecutor(max_workers=5) as ex:
+    with concurrent.futures.ThreadPoolExecutor(max_workers=6) as ex:
         def one(name):
             return vlib.tlc("MC_Cache", name, workers=2, timeout=300, xmx="2g", coverage=name in (full, gen),
                             tag="c20-" + name)
@@ -683,6 +806,17 @@ def report(run, case, obs, viols, drifts):
         run.drift_note("Cache", "%s/%s/%s: %s" % (case["prior"], case["server"]["mode"], case["entry"], t))
 
 
+TINY_SERVERS = (("ok", None, 200), ("cutclose", 1, 200), ("status", 1, 500), ("refused", 0, 0))
+
+
+def tiny_servers(pieces, thorough):
+    """the server behaviours the tiny previous caches are combined with: (mode, k, code) as TLC prints them"""
+    t = [(m, pieces if k is None else k, c) for m, k, c in TINY_SERVERS]
+    if thorough:
+        t += [("okclose", pieces, 200), ("cut", 1, 200), ("stall", 1, 200), ("status", 1, 404)]
+    return t
+
+
 def run_many(ctx, jobs, workers):
     """jobs: list of (case, ageds) -> list of observations (same order)"""
     with concurrent.futures.ThreadPoolExecutor(max_workers=workers) as ex:
@@ -690,18 +824,18 @@ def run_many(ctx, jobs, workers):
         return [f.result() for f in futs]
 
 
-TIMING_KINDS = ("hang", "next-start-hang")
+TIMING_KINDS = ("hang", "next-start-hang", "recovery-hang")
 
 
 def settle(run, ctx, case, ageds, expect, obs):
     """judge; what is on disk and what rink printed is believed as it is - only a verdict that rests on a
     time limit (a run called a hang) must show again when the case runs alone before it is believed"""
-    viols, drifts = judge(case, expect, obs)
+    viols, drifts = judge(case, expect, obs, ctx.control)
     timing = [x for x in viols if x[0] in TIMING_KINDS]
     if timing:
         log("[C20] suspected %s on %s - running the case again, alone" % ([k for k, _, _ in timing], case_key(case)))
         obs2 = execute(ctx, case, ageds)
-        viols2, drifts2 = judge(case, expect, obs2)
+        viols2, drifts2 = judge(case, expect, obs2, ctx.control)
         if not [x for x in viols2 if x[0] in TIMING_KINDS]:
             run.drift_note("harness", "a run of %s exceeded %ds once but not when run alone (not counted)"
                            % (case_key(case), RUN_LIMIT))
@@ -716,16 +850,27 @@ def run(tier, seed):
     thorough = tier == "thorough"
     pieces = 5 if thorough else 3
     run.cov["rule"] = (
-        "G: every (prior cache in absent/fresh/stale/unreadable-old/unreadable-recent) x (server: complete 200 | 200 cut after each of the %d "
-        "piece boundaries | stall with nothing/headers/each boundary sent | 301/404/500 with a body | connection refused) x "
+        "G: every (prior cache in absent/fresh/stale/unreadable-old/unreadable-recent) x (server: complete 200 with "
+        "Content-Length | the same cut after each of the %d piece boundaries | complete 200 delimited by the close of the "
+        "connection (no Content-Length, no chunks) | the same cut after each piece boundary | stall with nothing/headers/each "
+        "boundary sent | 301/404/500 with a body | connection refused) x "
         "(startup | --fetch-currency) printed by TLC from Cache.tla, run on the real rink binary against rv-httpd; then the "
         "next start with the server down (also with the cache aged past cache_duration). K: the same run repeated with "
-        "SIGKILL injected at the entry of each file-system call that touched the cache directory. V: every strace log "
-        "validated by Trace_Cache.tla. evaluations = rink runs under test; non-trivial = a fault was injected (server "
-        "not 'complete 200', or a kill that actually hit) ; distinct by (prior, server, entry, kill point)." % pieces)
+        "SIGKILL injected at the entry of each file-system call that touched the cache directory (calls after the rename "
+        "included; the file is compared byte for byte). T: previous caches of 0, 1, 2 and 3 bytes (%d contents) x old/recent "
+        "x both entry points x %d server behaviours. R: every run of G, K and T is followed (after the start with the server "
+        "down) by a run against a healthy server with the cache aged, which must install the new contents. V: every strace "
+        "log validated by Trace_Cache.tla. evaluations = rink runs; non-trivial = a fault was injected (server "
+        "does not deliver the complete body with status 200, or a kill that actually hit, or a tiny unreadable cache); "
+        "distinct by (prior, server, entry, kill point, tiny contents)." % (pieces, len(TINY), len(tiny_servers(pieces, thorough))))
     run.assumptions += [
         "crash = the process is killed (page cache survives); power loss / fsync ordering is not covered",
-        "the fault server always sends Content-Length: a close-delimited 200 cut short cannot be told from a complete one",
+        "a close-delimited 200 answer (no Content-Length, no chunked encoding) cut short looks complete to every HTTP "
+        "client; it is told from a complete one by its content: no proper prefix of the currency document that ends "
+        "before the document's last token parses. Cuts are enumerated at the piece boundaries (thorough: also after 1, 100 and "
+        "length-1 bytes); a cut inside trailing white space after the closing bracket (the test body has none) yields a "
+        "complete document and is not enumerated",
+        "recovery (R): the healthy server answers with Content-Length; 'healthy' = complete body, status 200, no delay",
         "strace delivers the injected SIGKILL on syscall entry: kill point N means the process died before file-system call N "
         "(the state after the last call is the normal end of the run)",
         "harness trusted for: rv-httpd doing what its modes say (self-tested at every run), classifying strace paths as "
@@ -755,6 +900,23 @@ def run(tier, seed):
                     for b in (1, 100, len(ctx.new) - 1):
                         jobs.append(({"engine": "cache-fault", "prior": prior, "entry": entry, "kill": None,
                                       "server": {"mode": "cut", "k": 0, "code": 200, "bytes": b}}, [False], base))
+                    base = next(e for c, a, e in jobs if c["prior"] == prior and c["entry"] == entry and c["server"]["mode"] == "cutclose")
+                    # (the last byte only when it belongs to the document: a body cut inside trailing white space is complete)
+                    for b in (1, 100) + ((len(ctx.new) - 1,) if not ctx.new[-1:].isspace() else ()):
+                        jobs.append(({"engine": "cache-fault", "prior": prior, "entry": entry, "kill": None,
+                                      "server": {"mode": "cutclose", "k": 0, "code": 200, "bytes": b}}, [False], base))
+        # ---- T: the shortest previous caches: the model's "unreadable" previous cache stands for every file that is
+        # not the currency document; the combinations and expectations are those TLC printed for garbage / garbage_fresh
+        ntiny = 0
+        for case, ageds, exp in list(jobs):
+            sv = case["server"]
+            if case["prior"] in ("garbage", "garbage_fresh") and "bytes" not in sv and \
+                    (sv["mode"], sv["k"], sv["code"]) in tiny_servers(pieces, thorough):
+                for hx in TINY:
+                    jobs.append((dict(case, engine="cache-tiny", prior_hex=hx), [False], exp))
+                    ntiny += 1
+        if ntiny != len(TINY) * 2 * 2 * len(tiny_servers(pieces, thorough)):
+            raise vlib.ToolError("tiny previous caches: %d combinations selected" % ntiny)
         t0 = time.time()
         obs_list = run_many(ctx, [(c, a) for c, a, _ in jobs], workers)
         log("[C20] G: %d combinations run in %.0fs" % (len(jobs), time.time() - t0))
@@ -762,10 +924,14 @@ def run(tier, seed):
         successes = 0
         good = None
         results = {}
+        # control for the recovery family: the plain refresh against the healthy server, per entry point
+        ctx.control = {e: any(c["entry"] == e and c["server"]["mode"] == "ok" and c["prior"] in ("absent", "stale") and
+                              o["after"] == "new" for (c, a, x), o in zip(jobs, obs_list)) for e in ("startup", "fetch")}
+        run.note("control_healthy_refresh_succeeds", ctx.control)
         for (case, ageds, exp), obs in zip(jobs, obs_list):
             obs, viols, drifts = settle(run, ctx, case, ageds, exp.get(False), obs)
-            run.count(1 + len(obs["next"]))
-            if case["server"]["mode"] != "ok":
+            run.count(1 + len(obs["next"]) + (1 if "recovery" in obs else 0))
+            if case["server"]["mode"] not in SUCCEEDS or case.get("prior_hex") is not None:
                 run.nontrivial(case_key(case))
             report(run, case, obs, viols, drifts)
             traces.append((case, obs["events"]))
@@ -774,27 +940,54 @@ def run(tier, seed):
                 successes += 1
                 if good is None and case["prior"] == "stale" and case["entry"] == "startup":
                     good = (case, obs["events"])
-        if successes == 0 and not run.violations:
-            raise vlib.ToolError("no refresh succeeded against a well-behaved server: the success clause was not exercised")
+        if successes == 0:
+            # not one refresh went through.  Either the environment keeps rink from reaching the server (no verdict), or
+            # the server did deliver complete bodies (its own log says so) and the client turned every one of them down:
+            # then the property's third clause ("a successful refresh makes the new rates visible") can never apply
+            delivered = ctx.complete_deliveries()
+            attempts = [(c, o) for (c, a, x), o in zip(jobs, obs_list)
+                        if c["server"]["mode"] in SUCCEEDS and not (c["entry"] == "startup" and c["prior"] in ("fresh", "garbage_fresh"))]
+            if delivered == 0 or not attempts:
+                if not run.violations:
+                    raise vlib.ToolError("no refresh succeeded against a well-behaved server and the server never got to "
+                                         "deliver a complete body: the success clause was not exercised")
+            else:
+                c, o = next(((c, o) for c, o in attempts if c["prior"] == "stale" and c["entry"] == "fetch"), attempts[0])
+                run.violation(dict(c, kind="never-refreshes"),
+                              "a refresh whose server delivers the complete body with status 200 at once (the client is neither "
+                              "killed nor timed out) is a successful refresh: the new contents are installed and visible to "
+                              "the next start.  At least one of the %d such attempts of this run succeeds" % len(attempts),
+                              {"attempts": len(attempts), "succeeded": 0, "complete_bodies_delivered_by_the_server": delivered,
+                               "observation": {k: v for k, v in o.items() if k != "events"}}, c["engine"])
         run.note("combinations", len(jobs))
+        run.note("tiny_prior_cache_combinations", ntiny)
         run.note("successful_refreshes_observed", successes)
         smp = next((c, o) for (c, a, e), o in zip(jobs, obs_list) if c["server"]["mode"] == "cut" and c["prior"] == "stale")
         run.sample({"leg": "G", "case": smp[0], "expect": groups[case_key(smp[0])][1].get(False),
                     "observed": {k: v for k, v in smp[1].items() if k != "events"}})
+        for want in (lambda c: c["server"]["mode"] == "cutclose" and c["prior"] == "stale" and c["server"]["k"] == 2,
+                     lambda c: c.get("prior_hex") == "5b5d" and c["entry"] == "startup" and c["server"]["mode"] == "refused"):
+            smp = next(((c, o) for (c, a, e), o in zip(jobs, obs_list) if want(c)), None)
+            if smp:
+                run.sample({"leg": "T" if smp[0].get("prior_hex") is not None else "G", "case": smp[0],
+                            "observed": {k: v for k, v in smp[1].items() if k != "events"}})
 
         # ---- K: kill sweep
         if thorough:
-            sweep = [c for c, a, e in jobs if "bytes" not in c["server"]]
+            sweep = [c for c, a, e in jobs if "bytes" not in c["server"] and c.get("prior_hex") is None]
         else:
             def pick(c):
                 sv = c["server"]
+                if c.get("prior_hex") is not None:
+                    return False
                 if c["prior"] == "stale":
                     return (sv["mode"], sv["k"], sv["code"]) in (("ok", pieces, 200), ("cut", 1, 200), ("stall", 1, 200),
-                                                                ("stall", -1, 200), ("status", 1, 500), ("refused", 0, 0))
+                                                                ("stall", -1, 200), ("status", 1, 500), ("refused", 0, 0),
+                                                                ("okclose", pieces, 200), ("cutclose", 1, 200))
                 return sv["mode"] == "ok" and (c["prior"], c["entry"]) in (("absent", "fetch"), ("garbage", "startup"))
             sweep = [c for c, a, e in jobs if pick(c)]
-            if len(sweep) != 14:
-                raise vlib.ToolError("quick kill sweep: expected 14 combinations, selected %d" % len(sweep))
+            if len(sweep) != 18:
+                raise vlib.ToolError("quick kill sweep: expected 18 combinations, selected %d" % len(sweep))
         kjobs = []
         for case in sweep:
             pts = results[case_key(case)]["kill_points"]
@@ -810,7 +1003,7 @@ def run(tier, seed):
         hits = {}
         for (case, ageds), obs in zip(kjobs, kobs):
             obs, viols, drifts = settle(run, ctx, case, ageds, None, obs)
-            run.count(1 + len(obs["next"]))
+            run.count(1 + len(obs["next"]) + (1 if "recovery" in obs else 0))
             if obs["run1"].get("killed"):
                 run.nontrivial(case_key(case))
                 h = obs["kill_hit"] or {"syscall": "?"}
@@ -860,8 +1053,12 @@ def replay(path, seed):
         ctx.selftest()
         c = {"engine": case.get("engine"), "prior": case["prior"], "server": case["server"], "entry": case["entry"],
              "kill": case.get("kill")}
+        if case.get("prior_hex") is not None:
+            c["prior_hex"] = case["prior_hex"]
         obs = execute(ctx, c, [False, True])
         viols, drifts = judge(c, None, obs)
+        if case.get("kind") == "never-refreshes" and obs["after"] != "new":
+            viols.append(("never-refreshes", "the refresh against the healthy server installs the new contents", {}))
         log("observed now: " + json.dumps({k: v for k, v in obs.items() if k != "events"})[:3000])
         for kind, allows, seen in viols:
             log("STILL VIOLATED: %s - allowed: %s" % (kind, json.dumps(allows)))
